@@ -397,6 +397,7 @@ public:
       // approach - decrement `_search_start` and increment `_largest_unused_area`, which are essential
       // for incremental mode blocks.
       ASMJIT_ASSERT(_search_start >= released_area_size);
+      _search_end = _area_size;
       _search_start -= released_area_size;
       _largest_unused_area += released_area_size;
 
@@ -434,6 +435,7 @@ public:
     _area_used -= shrunk_area_size;
 
     if (Support::bool_and(is_incremental(), _search_start == shrunk_area_end)) {
+      _search_end = _area_size;
       _search_start -= shrunk_area_size;
       _largest_unused_area += shrunk_area_size;
     }
